@@ -573,8 +573,8 @@ func endToEnd(r *vkit.R) {
 	nEnd := count(r.Quick(), 108, 1800, 360)
 	scen := []string{"type-toggle-tokenBucket", "type-toggle-exempt", "admitted-as-tokenBucket", "delete-re-add", "resize-down", "resize-up", "noop-update",
 		"endpoint-removed", "near-collision-sibling", "schema-named-system-default",
-		"cluster-delete-recreate", "limit-zero", "storm"}
-	nScen := count(r.Quick(), 39, 520, 130)
+		"cluster-delete-recreate", "limit-zero", "storm", "two-clusters-same-schema"}
+	nScen := count(r.Quick(), 42, 560, 140)
 	r.Parallel(nEnd+nScen, 6, func(i int, g *vkit.Rand) {
 		b := &batch{env: env, host: fmt.Sprintf("c05e2e%d.test", i), rel: &releases{m: map[string]chan struct{}{}}}
 		b.main, b.off = bed.NewStub("main"), bed.NewStub("off")
@@ -736,6 +736,9 @@ func endToEnd(r *vkit.R) {
 			return
 		case "storm":
 			b.storm(g, witness)
+			return
+		case "two-clusters-same-schema":
+			b.twoClusters(witness)
 			return
 		}
 		if b.sibName != "" {
@@ -1191,4 +1194,74 @@ func (b *batch) storm(g *vkit.Rand, witness func() map[string]interface{}) {
 		r.Count("e2e_storm_scenarios_reaching_the_limit", 1)
 	}
 	r.Distinct(vkit.Hash64("e2e-storm", fmt.Sprint(admittedN, refusedN)))
+}
+
+// twoClusters: a second cluster object (own host name, same stub upstreams) has a schema with the SAME name and limit 2.
+// Exhausting it must not reject anything under this cluster's schema (limit 1) nor under a schema-less... and vice versa;
+// deleting the second cluster leaves this one's limit alone.
+func (b *batch) twoClusters(witness func() map[string]interface{}) {
+	r := b.env.r
+	const tail = "scenario=two-clusters-same-schema"
+	b2 := &batch{env: b.env, host: strings.Replace(b.host, ".test", "-other.test", 1), main: b.main, off: b.off, rel: b.rel, M: 2}
+	if !b2.apply(cfg{Kind: kMIF, Max: 2}, 1) {
+		return
+	}
+	deleted := false
+	defer func() {
+		if !deleted {
+			b.env.gw.Delete(b2.host)
+		}
+	}()
+	if !b.env.gw.WaitReady(b2.host, b.main.URL, true, watchdog) {
+		r.Inconclusive("watchdog: endpoint of the second cluster did not become ready")
+		return
+	}
+	b.note("second cluster %s applied with %s=maxInflight(2)", b2.host, hot)
+	w := func() map[string]interface{} {
+		m := witness()
+		b2.mu.Lock()
+		m["events_other_cluster"] = append([]string(nil), b2.log...)
+		b2.mu.Unlock()
+		return m
+	}
+	// exhaust the other cluster's schema
+	other, ok := b2.probe(2, 0, true, tail+"/other-cluster-fresh", w)
+	if !ok || b2.violated {
+		b2.releaseAll(other)
+		return
+	}
+	// this cluster's schema still has its own slot, and only that one
+	mine, ok := b.probe(1, 0, true, tail+"/other-cluster-exhausted", w)
+	if !ok {
+		b2.releaseAll(other)
+		return
+	}
+	// this cluster's request finishes: the other cluster is still full (its streams count only there)
+	if !b.releaseAll(mine) || !b.inflightIs(0) {
+		r.Inconclusive("watchdog: stream did not finish")
+		return
+	}
+	if _, ok := b2.probe(2, 2, true, tail+"/other-cluster-still-exhausted", w); !ok {
+		return
+	}
+	// the other cluster is deleted with its streams in flight
+	b.env.gw.Delete(b2.host)
+	deleted = true
+	b.note("second cluster deleted")
+	for _, p := range other {
+		if _, ok := b2.finish(p); !ok {
+			r.Inconclusive("watchdog: stream of the deleted cluster was not torn down")
+			return
+		}
+	}
+	mine, ok = b.probe(1, 0, true, tail+"/other-cluster-deleted", w)
+	if !ok {
+		return
+	}
+	b.releaseAll(mine)
+	if b.violated || b2.violated {
+		return
+	}
+	r.Count("e2e_two_clusters_scenarios", 1)
+	r.Distinct(vkit.Hash64("e2e-twoclusters"))
 }
